@@ -625,7 +625,34 @@ func runSession(s spec) *transcript {
 		var got []byte
 		var gop ws.OpCode
 		switch s.traffic {
-		case 0, 1:
+		case 1:
+			// message by message through NextReader, with the defensive drain some applications do after the end of
+			// a message: that reader is finished - nothing more comes out of it, whatever other sessions are reading
+			for err == nil {
+				var h ws.Header
+				var r io.Reader
+				if h, r, err = wsutil.NextReader(conn, st); err != nil {
+					break
+				}
+				var p []byte
+				if p, err = io.ReadAll(r); err != nil {
+					break
+				}
+				for y := 0; y < 1+s.id%3; y++ {
+					runtime.Gosched()
+				}
+				var extra [16]byte
+				if n, e2 := r.Read(extra[:]); n != 0 || e2 == nil {
+					t.add("C read %d more bytes (err=%v) from a message reader that had reported its end ok=false", n, e2)
+				}
+				if h.OpCode.IsControl() {
+					t.add("C control op=%x %s", h.OpCode, p)
+					continue
+				}
+				got, gop = p, h.OpCode
+				break
+			}
+		case 0:
 			if s.traffic == 0 && i%2 == 1 {
 				// a ping went out before this message: read frame by frame so that the pong
 				// payload gets into the transcript (the echo of mode 0 is a single frame)
